@@ -266,11 +266,15 @@ def run_case(case):
         elif via == "fileurl":
             target = "file://" + os.path.join(outd, case["main"])
         elif via == "pathobj":  # what a Path_fc option parsed from a config file in another directory looks like
-            target = Path_fc(case["main"], cwd=outd)
+            target = lambda: Path_fc(case["main"], cwd=outd)  # noqa: E731  (built inside the observed call: may raise PathError)
         elif via == "chdir":  # a Path created while the process was in the target directory, used after leaving it
-            os.chdir(outd)
-            target = Path_fc(case["main"])
-            os.chdir(cwd0)
+
+            def target():
+                os.chdir(outd)
+                try:
+                    return Path_fc(case["main"])
+                finally:
+                    os.chdir(cwd0)
         else:
             raise SystemExit("unknown via %r" % via)
         before = snapshot(outd, intern)
@@ -290,7 +294,7 @@ def run_case(case):
         try:
             parser.save(
                 cfg,
-                target,
+                target() if callable(target) else target,
                 format=fmt,
                 skip_validation=case["skipval"],
                 overwrite=case["overwrite"],
